@@ -517,6 +517,11 @@ static int run_op(const char *op)
         for (int k = 0; k < rank; k++) ne *= ct[k]; NEED(ne > 0 && ne * ntsize(nt) < (long)sizeof big);
         fill(big, ne * ntsize(nt), I(2)); rc = SDwritedata(sds[d], st, NULL, ct, big) != FAIL;
     }
+    OP("sdwritedim") {   /* SDwritedata through a DIMENSION id (writes the dimension's coordinate variable) */
+        long d = I(1); NEED(SLOT(sds, d, NA)); int32 di = SDgetdimid(sds[d], (int)I(2)); NEED(di != FAIL);
+        char nm[256]; int32 sz = 0, t = 0, na = 0; NEED(SDdiminfo(di, nm, &sz, &t, &na) != FAIL); if (sz <= 0) sz = 1;
+        int32 st[1] = {0}, ct[1] = {sz}; fill(big, (long)sz * 8, I(3)); rc = SDwritedata(di, st, NULL, ct, big) != FAIL;
+    }
     OP("sdreaddata") {
         long d = I(1); NEED(SLOT(sds, d, NA)); int32 rank, dims[H4_MAX_VAR_DIMS], nt; long ne;
         NEED(sds_geom(sds[d], &rank, dims, &nt, &ne)); int32 st[H4_MAX_VAR_DIMS];
@@ -635,6 +640,13 @@ static int run_op(const char *op)
     }
     OP("rmfile") { rc = unlink(xname(I(1))) == 0; }
     OP("chmodro") { rc = chmod(S_(1), 0444) == 0; }
+    OP("chmodrw") { rc = chmod(S_(1), 0666) == 0; }
+    /* OS-level scenarios: run as an unprivileged user (file permissions become effective); hide a file by renaming it
+       (a second open of the same path then fails whatever the uid) */
+    OP("dropuid") { rc = geteuid() != 0 ? 1 : seteuid(65534) == 0; }
+    OP("regainuid") { rc = seteuid(0) == 0 || getuid() != 0; }
+    OP("hide") { char m[64]; snprintf(m, sizeof m, "%s.moved", fname(I(1))); rc = rename(fname(I(1)), m) == 0; }
+    OP("unhide") { char m[64]; snprintf(m, sizeof m, "%s.moved", fname(I(1))); rc = rename(m, fname(I(1))) == 0; }
     OP("oldversion") {   /* patch the stored version element of file F: library version -> 4.0.0 (file must be closed) */
         int32 f = Hopen(fname(I(1)), DFACC_READ, 0); int32 off = -1, len = 0; uint16 t, r;
         if (f != FAIL) { if (Hfind(f, DFTAG_VERSION, 1, &t, &r, &off, &len, DF_FORWARD) == FAIL) off = -1; Hclose(f); }
@@ -708,6 +720,7 @@ int main(int argc, char **argv)
         char sub[1024];
         snprintf(sub, sizeof sub, "%s/h%ld", dir, hk++);
         mkdir(sub, 0777);
+        chmod(sub, 0777);   /* an unprivileged run (dropuid) must still be able to create files here: creation is observed, not prevented */
         pid_t pid = fork();
         if (pid == 0) {
             if (chdir(sub) != 0) _exit(3);
